@@ -8,6 +8,10 @@ anchored code of the path machinery:
   do_n                      -> checked to be `self.curpath = []`
   do_re                     -> rePath (the five appended segments)
   process_page              -> pageCtm (Rotate -> initial CTM table)
+  do_m do_l do_c do_v do_y  -> segAppend (segment letter + order of the appended operands; every operand
+                               must be guarded by safe_float / `is None`)
+  do_h                      -> checked to be `if self.curpath and self.curpath[-1][0] == "h": return; append(("h",))`
+  do_cm                     -> cmPremultiplies (`mult_matrix(matrix, self.ctm)` vs `mult_matrix(self.ctm, matrix)`)
   do_W do_W_a               -> checked to have an empty body (docstring only): clipping does not paint
   converter.PDFLayoutAnalyzer.paint_path (the straight-line tests of the single-sub-path branch):
       `len(shape) > K and shape[-N:] == S and pts[-i] == pts[j]`, `shape = shape[:-M] + T; pts.pop()`
@@ -398,6 +402,102 @@ def paint_path_tests(fn: ast.FunctionDef) -> str:
     return "".join(out)
 
 
+# --------------------------------------------------------------------------- path construction operators
+
+SEG_METHODS = ["do_m", "do_l", "do_c", "do_v", "do_y"]
+
+
+def seg_append(fn: ast.FunctionDef):
+    """(letter, [index of the parameter appended at each position]) for
+    `p_f = safe_float(p) ...; if p_f is None or ...: <warn> else: point = (L, p_f, ...); self.curpath.append(point)`."""
+    params = [a.arg for a in fn.args.args[1:]]
+    body = body_wo_doc(fn)
+    conv = {}
+    i = 0
+    while i < len(body) and isinstance(body[i], ast.Assign):
+        a = body[i]
+        v = a.value
+        if not (_name(a.targets[0]) and isinstance(v, ast.Call) and _name(v.func, "safe_float") and
+                len(v.args) == 1 and _name(v.args[0]) and v.args[0].id in params and not v.keywords):
+            raise P.Untranslatable(f"{fn.name}: statement is not `p_f = safe_float(p)`")
+        conv[a.targets[0].id] = params.index(v.args[0].id)
+        i += 1
+    if len(conv) != len(params) or sorted(conv.values()) != list(range(len(params))) or i != len(body) - 1 or \
+            not isinstance(body[i], ast.If):
+        raise P.Untranslatable(f"{fn.name}: not every operand is converted with safe_float exactly once")
+    node = body[i]
+    tests = node.test.values if isinstance(node.test, ast.BoolOp) and isinstance(node.test.op, ast.Or) else [node.test]
+    guarded = set()
+    for t in tests:
+        if not (isinstance(t, ast.Compare) and len(t.ops) == 1 and isinstance(t.ops[0], ast.Is) and _name(t.left) and
+                isinstance(t.comparators[0], ast.Constant) and t.comparators[0].value is None and t.left.id in conv):
+            raise P.Untranslatable(f"{fn.name}: guard is not a disjunction of `p_f is None`")
+        guarded.add(t.left.id)
+    if guarded != set(conv):
+        raise P.Untranslatable(f"{fn.name}: the guard does not test {sorted(set(conv) - guarded)}")
+    for st in node.body:        # the warning branch must not touch the path
+        for x in ast.walk(st):
+            if isinstance(x, ast.Attribute) and x.attr == "curpath":
+                raise P.Untranslatable(f"{fn.name}: the warning branch touches curpath")
+    e = node.orelse
+    ok = (len(e) == 2 and isinstance(e[0], ast.Assign) and _name(e[0].targets[0], "point") and
+          isinstance(e[0].value, ast.Tuple) and isinstance(e[1], ast.Expr) and isinstance(e[1].value, ast.Call) and
+          isinstance(e[1].value.func, ast.Attribute) and e[1].value.func.attr == "append" and
+          self_attr(e[1].value.func.value, "curpath") and len(e[1].value.args) == 1 and
+          _name(e[1].value.args[0], "point"))
+    if not ok:
+        raise P.Untranslatable(f"{fn.name}: else branch is not `point = (...); self.curpath.append(point)`")
+    t = e[0].value.elts
+    if not (isinstance(t[0], ast.Constant) and isinstance(t[0].value, str) and len(t[0].value) == 1 and
+            all(_name(x) and x.id in conv for x in t[1:])):
+        raise P.Untranslatable(f"{fn.name}: appended tuple is not (letter, converted operands...)")
+    return t[0].value, [conv[x.id] for x in t[1:]]
+
+
+def check_do_h(fn: ast.FunctionDef):
+    b = body_wo_doc(fn)
+    ok = (len(b) == 2 and isinstance(b[0], ast.If) and not b[0].orelse and len(b[0].body) == 1 and
+          isinstance(b[0].body[0], ast.Return) and b[0].body[0].value is None and
+          isinstance(b[0].test, ast.BoolOp) and isinstance(b[0].test.op, ast.And) and len(b[0].test.values) == 2 and
+          self_attr(b[0].test.values[0], "curpath") and
+          ast.unparse(b[0].test.values[1]) in ("self.curpath[-1][0] == 'h'",) and
+          ast.unparse(b[1]) in ("self.curpath.append(('h',))",))
+    if not ok:
+        raise P.Untranslatable("do_h is not `if self.curpath and self.curpath[-1][0] == 'h': return; "
+                               "self.curpath.append(('h',))`")
+
+
+def cm_order(fn: ast.FunctionDef) -> bool:
+    """True when do_cm sets `self.ctm = mult_matrix(matrix, self.ctm)` with matrix = safe_matrix(all six operands
+    in order)."""
+    params = [a.arg for a in fn.args.args[1:]]
+    b = body_wo_doc(fn)
+    ok = (len(b) == 2 and isinstance(b[0], ast.Assign) and _name(b[0].targets[0], "matrix") and
+          isinstance(b[0].value, ast.Call) and _name(b[0].value.func, "safe_matrix") and
+          [x.id if _name(x) else None for x in b[0].value.args] == params and len(params) == 6 and
+          isinstance(b[1], ast.If) and ast.unparse(b[1].test) == "matrix is None")
+    if not ok:
+        raise P.Untranslatable("do_cm: not `matrix = safe_matrix(a1, .., f1); if matrix is None: .. else: ..`")
+    for st in b[1].body:
+        for x in ast.walk(st):
+            if isinstance(x, ast.Attribute) and x.attr == "ctm":
+                raise P.Untranslatable("do_cm: the warning branch touches the CTM")
+    e = b[1].orelse
+    if not (len(e) >= 1 and isinstance(e[0], ast.Assign) and self_attr(e[0].targets[0], "ctm")):
+        raise P.Untranslatable("do_cm: else branch does not assign self.ctm")
+    src = ast.unparse(e[0].value)
+    if src == "mult_matrix(matrix, self.ctm)":
+        pre = True
+    elif src == "mult_matrix(self.ctm, matrix)":
+        pre = False
+    else:
+        raise P.Untranslatable("do_cm: self.ctm = " + src)
+    for st in e[1:]:
+        if ast.unparse(st) != "self.device.set_ctm(self.ctm)":
+            raise P.Untranslatable("do_cm: unexpected statement " + ast.unparse(st))
+    return pre
+
+
 def generate(lean_dir: str):
     out = [P.HEADER.format(src="pdfminer/utils.py, pdfcolor.py, pdfinterp.py, converter.py", ns="PathsGen")]
     # --- matrix helpers
@@ -452,6 +552,17 @@ def generate(lean_dir: str):
     if not (len(b) == 1 and is_clear_curpath(b[0])):
         raise P.Untranslatable("do_n is not `self.curpath = []`")
     out.append("/-- `do_n` is exactly `self.curpath = []`. -/\ndef nClearsPath : Bool := true\n\n")
+    rows = []
+    for m in SEG_METHODS:
+        letter, idx = seg_append(methods[m])
+        rows.append(f"({P.lean_string(op_name(m))}, ({P.lean_string(letter)}, [{', '.join(str(i) for i in idx)}]))")
+    out.append("/-- `do_m do_l do_c do_v do_y`: operator -> (segment letter, for each appended value the index of the\n"
+               "operand it is converted from); every operand is guarded by `safe_float(..) is None`. -/\n")
+    out.append("def segAppend : List (String × (String × List Nat)) :=\n  [" + ", ".join(rows) + "]\n\n")
+    check_do_h(methods["do_h"])
+    out.append("/-- `do_h` appends `(\"h\",)` unless the path already ends in `h`. -/\ndef hIdempotent : Bool := true\n\n")
+    out.append("/-- `do_cm`: `self.ctm = mult_matrix(matrix, self.ctm)` (true) or `mult_matrix(self.ctm, matrix)` (false). -/\n"
+               f"def cmPremultiplies : Bool := {str(cm_order(methods['do_cm'])).lower()}\n\n")
     for w in ("do_W", "do_W_a"):
         if w not in methods or body_wo_doc(methods[w]) not in ([],) and \
                 not all(isinstance(x, ast.Pass) for x in body_wo_doc(methods[w])):
